@@ -63,6 +63,8 @@ pub enum Op {
     Clear,
     Reserve(u32),
     Len,
+    /// `map == map` (reads only: iterates one side, looks every entry up in the other)
+    EqSelf,
     /// whole iteration as one operation
     IterAll(IterKind),
     /// step-wise iteration: open, advance by up to n items, close
@@ -180,6 +182,7 @@ impl Op {
             Op::Clear => json!(["clear"]),
             Op::Reserve(n) => json!(["reserve", n]),
             Op::Len => json!(["len"]),
+            Op::EqSelf => json!(["eq_self"]),
             Op::IterAll(k) => json!(["iter_all", ik_s(*k)]),
             Op::IterOpen(k) => json!(["iter_open", ik_s(*k)]),
             Op::IterNext(n) => json!(["iter_next", n]),
@@ -212,6 +215,7 @@ impl Op {
             "clear" => Op::Clear,
             "reserve" => Op::Reserve(u(1)?),
             "len" => Op::Len,
+            "eq_self" => Op::EqSelf,
             "iter_all" => Op::IterAll(ik_p(a.get(1)?.as_str()?)?),
             "iter_open" => Op::IterOpen(ik_p(a.get(1)?.as_str()?)?),
             "iter_next" => Op::IterNext(u(1)?),
